@@ -361,6 +361,14 @@ func TestRandom(t *testing.T) {
 	ev.Rapid(t, "c06-hyper", 1500, 20000, func(rt *rapid.T) {
 		N := rapid.IntRange(2, 1000).Draw(rt, "n")
 		c := &HCase{N: N, K: rapid.IntRange(0, N).Draw(rt, "k"), Draws: rapid.IntRange(0, N).Draw(rt, "draws")}
+		bigBalanced := rapid.IntRange(0, 5).Draw(rt, "bigBalanced") == 0
+		if bigBalanced {
+			// the largest populations with K and Draws both near N/2: the widest supports, the
+			// smallest end masses (1e-300) and the largest ratios between neighbouring terms
+			c.N = rapid.IntRange(850, 1000).Draw(rt, "nbig")
+			c.K = c.N/2 + rapid.IntRange(-c.N/5, c.N/5).Draw(rt, "kOff")
+			c.Draws = c.N/2 + rapid.IntRange(-c.N/5, c.N/5).Draw(rt, "dOff")
+		}
 		lo, hi := c.Draws+c.K-c.N, c.Draws
 		if lo < 0 {
 			lo = 0
@@ -369,6 +377,11 @@ func TestRandom(t *testing.T) {
 			hi = c.K
 		}
 		mean := float64(c.Draws) * float64(c.K) / float64(c.N)
+		if bigBalanced { // both ends of the support, point by point
+			for j := 0; j <= 25 && lo+j <= hi; j++ {
+				c.Ks = append(c.Ks, float64(lo+j), float64(hi-j))
+			}
+		}
 		for i := 0; i < 12; i++ {
 			switch rapid.IntRange(0, 2).Draw(rt, "kkind") {
 			case 0:
